@@ -52,7 +52,8 @@ type Item struct {
 }
 
 type Replay struct {
-	Kind    string     `json:"kind"` // seq | conc
+	Kind    string     `json:"kind"`             // seq | legacy | conc
+	Legacy  []int      `json:"legacy,omitempty"` // kind legacy: pool ids whose records pre-exist under the old bare-hash keys
 	Seed    int64      `json:"seed"`
 	Case    int        `json:"case"`
 	Max     int        `json:"max"`  // maxQueueSize (0 = unlimited; 1000 = NewSequencer's default constructor)
@@ -200,10 +201,22 @@ var logger = func() logging.EventLogger {
 	return l
 }()
 
-func newRunner(pool [][][]byte, max int) (*runner, error) {
+func newRunner(pool [][][]byte, max int) (*runner, error) { return newRunnerSeeded(pool, max, nil) }
+
+func newRunnerSeeded(pool [][][]byte, max int, legacy []int) (*runner, error) {
 	kv, err := store.NewDefaultInMemoryKVStore()
 	if err != nil {
 		return nil, err
+	}
+	for _, id := range legacy {
+		// exactly what the pre-repair AddBatch wrote: key = hex(hash), value = proto(Batch)
+		val, err := proto.Marshal(&pb.Batch{Txs: pool[id-1]})
+		if err != nil {
+			return nil, err
+		}
+		if err := kv.Put(context.Background(), ds.NewKey("/batches/"+hex.EncodeToString(realHash(pool[id-1]))), val); err != nil {
+			return nil, err
+		}
 	}
 	r := &runner{pool: pool, max: max, kv: kv, cds: crashds.Wrap(kv, nil), ctx: context.Background()}
 	if err := r.boot(); err != nil {
@@ -506,31 +519,38 @@ type caseResult struct {
 	panicd bool
 }
 
-func key48(hexKey string) (uint64, bool) {
-	if len(hexKey) < 12 {
-		return 0, false
+// keys of the repaired scheme: /batches/s<16 hex sequence number>-<64 hex content hash>; the model sees the
+// sequence number.  Anything else (incl. a legacy bare-hash key) projects to a marker the model never produces.
+func projKey(k string) uint64 {
+	const pfx = "/batches/s"
+	if !strings.HasPrefix(k, pfx) {
+		return 777777
 	}
-	b, err := hex.DecodeString(hexKey[:12])
+	rest := k[len(pfx):]
+	if len(rest) != 16+1+64 || rest[16] != '-' {
+		return 777776
+	}
+	b, err := hex.DecodeString(rest[:16])
 	if err != nil {
-		return 0, false
+		return 777775
+	}
+	if _, err := hex.DecodeString(rest[17:]); err != nil {
+		return 777774
 	}
 	var v uint64
 	for _, c := range b {
 		v = v<<8 | uint64(c)
 	}
-	return v, true
+	return v
 }
 
-func projKey(k string) uint64 {
-	const pfx = "/batches/"
-	if !strings.HasPrefix(k, pfx) {
-		return 777777
+// the suffix of a record's key must be the hash of the batch stored under it
+func keyMatchesValue(k string, v []byte) bool {
+	var m pb.Batch
+	if err := proto.Unmarshal(v, &m); err != nil {
+		return false
 	}
-	v, ok := key48(k[len(pfx):])
-	if !ok {
-		return 777776
-	}
-	return v
+	return strings.HasSuffix(k, "-"+hex.EncodeToString(realHash(m.Txs)))
 }
 
 func (r *runner) projVal(v []byte) uint64 {
@@ -541,14 +561,16 @@ func (r *runner) projVal(v []byte) uint64 {
 	return uint64(r.idOf(m.Txs))
 }
 
-func runCase(pool [][][]byte, max int, hist []Item) (res *caseResult) {
+// legacy: pool ids whose records pre-exist in the datastore under the OLD key scheme (bare hex hash), as a
+// store written before the repair would hold them.
+func runCase(pool [][][]byte, max int, hist []Item, legacy ...int) (res *caseResult) {
 	res = &caseResult{}
 	defer func() {
 		if x := recover(); x != nil {
 			res.sig, res.what, res.panicd = "panic", fmt.Sprint(x), true
 		}
 	}()
-	r, err := newRunner(pool, max)
+	r, err := newRunnerSeeded(pool, max, legacy)
 	if err != nil {
 		res.err = err
 		return
@@ -556,6 +578,10 @@ func runCase(pool [][][]byte, max int, hist []Item) (res *caseResult) {
 	defer r.close()
 	or := &oracle{pool: pool, max: max}
 	res.orc = or
+	// legacy records carry no acceptance order; they are expected first, in key (= hash) order
+	lg := append([]int{}, legacy...)
+	sort.Slice(lg, func(i, j int) bool { return bytes.Compare(realHash(pool[lg[i]-1]), realHash(pool[lg[j]-1])) < 0 })
+	or.pending = lg
 	for i, it := range withClosing(hist) {
 		before := r.cds.Len()
 		o := r.exec(it)
@@ -588,6 +614,9 @@ func runCase(pool [][][]byte, max int, hist []Item) (res *caseResult) {
 				res.log = append(res.log, "WDel "+vgen.N(projKey(p.Key)))
 			} else {
 				res.log = append(res.log, fmt.Sprintf("WPut %s %s", vgen.N(projKey(p.Key)), vgen.N(r.projVal(p.Value))))
+				if !keyMatchesValue(p.Key, p.Value) {
+					res.log = append(res.log, "WDel 444444%N") // key suffix is not the content hash: force a mismatch
+				}
 			}
 		}
 		if w.Batch || len(w.Prims) != 1 {
@@ -597,44 +626,30 @@ func runCase(pool [][][]byte, max int, hist []Item) (res *caseResult) {
 	return
 }
 
-func poolKeys(pool [][][]byte) []uint64 {
-	ks := make([]uint64, len(pool))
-	seen := map[uint64]bool{}
-	for i, b := range pool {
-		k, _ := key48(hex.EncodeToString(realHash(b)))
-		if seen[k] {
-			panic("48-bit key projection collision")
-		}
-		seen[k] = true
-		ks[i] = k
-	}
-	return ks
-}
-
 func histCoq(h []Item) string {
 	sub := func(it Item) string {
 		switch {
 		case it.B == 0:
-			return "SNil"
+			return "UNil"
 		case it.B < 0:
-			return "SEmpty"
+			return "UEmpty"
 		}
-		return fmt.Sprintf("b%d", it.B)
+		return "(UB " + vgen.N(uint64(it.B)) + ")"
 	}
 	var items []string
 	for _, it := range h {
 		switch it.T {
 		case "submit":
-			items = append(items, fmt.Sprintf("IOp (OSubmit %s %s)", vgen.Bool(!it.Bad), sub(it)))
+			items = append(items, fmt.Sprintf("UOp (USubmit %s %s)", vgen.Bool(!it.Bad), sub(it)))
 		case "next":
-			items = append(items, fmt.Sprintf("IOp (ONext %s)", vgen.Bool(!it.Bad)))
+			items = append(items, fmt.Sprintf("UOp (UNext %s)", vgen.Bool(!it.Bad)))
 		case "restart":
-			items = append(items, "IRestart")
+			items = append(items, "URestart")
 		case "crash":
 			if it.Op == "submit" {
-				items = append(items, fmt.Sprintf("ICrash (OSubmit true %s) %s", sub(it), vgen.Nat(it.N)))
+				items = append(items, fmt.Sprintf("UCrash (USubmit true %s) %s", sub(it), vgen.Nat(it.N)))
 			} else {
-				items = append(items, fmt.Sprintf("ICrash (ONext true) %s", vgen.Nat(it.N)))
+				items = append(items, fmt.Sprintf("UCrash (UNext true) %s", vgen.Nat(it.N)))
 			}
 		}
 	}
@@ -840,6 +855,8 @@ func TestVerif(t *testing.T) {
 			kind := "seq"
 			if c%10 == 9 {
 				kind = "conc"
+			} else if c%10 == 4 {
+				kind = "legacy"
 			}
 			jobs = append(jobs, job{rp: Replay{Kind: kind, Seed: e.Seed, Case: c}, gen: true})
 		}
@@ -871,22 +888,34 @@ func TestVerif(t *testing.T) {
 		if j.gen {
 			r := caseRng(rp.Seed, rp.Case)
 			pool = genPool(r)
-			rp.Kind = "seq"
 			rp.Max = maxes[r.Intn(len(maxes))]
 			rp.Pool = poolHex(pool)
 			rp.History = genHistory(r, len(pool), maxLen)
+			if rp.Kind == "legacy" {
+				for _, id := range r.Perm(len(pool))[:1+r.Intn(2)] {
+					rp.Legacy = append(rp.Legacy, id+1)
+				}
+				if rp.Max > 0 && rp.Max < len(rp.Legacy) {
+					rp.Max = len(rp.Legacy) // a store written under the same bound never holds more
+				}
+			}
 		} else {
 			pool = poolFromHex(rp.Pool)
 		}
 		if !validHist(rp.History, len(pool)) {
 			t.Fatalf("replay refers to a batch outside its pool")
 		}
-		cr := runCase(pool, rp.Max, rp.History)
+		for _, id := range rp.Legacy {
+			if id < 1 || id > len(pool) {
+				t.Fatalf("replay refers to a legacy batch outside its pool")
+			}
+		}
+		cr := runCase(pool, rp.Max, rp.History, rp.Legacy...)
 		if cr.err != nil {
 			t.Fatalf("harness error: %v", cr.err)
 		}
 		res.Evaluations++
-		res.Count("case:sequential")
+		res.Count("case:" + map[bool]string{true: "sequential-on-legacy-store", false: "sequential"}[len(rp.Legacy) > 0])
 		res.Count(fmt.Sprintf("max:%d", rp.Max))
 		for _, it := range rp.History {
 			k := "item:" + it.T
@@ -918,7 +947,7 @@ func TestVerif(t *testing.T) {
 		full := withClosing(rp.History)
 		hc := histCoq(full)
 		if len(rp.History) >= 3 && cr.orc != nil && cr.orc.accepted > 0 {
-			distinct[fmt.Sprintf("%d|%v|%s", rp.Max, poolKeys(pool), hc)] = true
+			distinct[fmt.Sprintf("%d|%v|%s", rp.Max, rp.Legacy, hc)] = true
 		}
 		if cr.sig != "" {
 			sig := cr.sig
@@ -926,7 +955,7 @@ func TestVerif(t *testing.T) {
 			if shrunk[sig] < 2 { // bin/check reports one replay per signature; shrinking the rest is wasted time
 				shrunk[sig]++
 				sh = vgen.Shrink(rp.History, func(h []Item) bool {
-					x := runCase(pool, rp.Max, h)
+					x := runCase(pool, rp.Max, h, rp.Legacy...)
 					return x.sig == sig
 				})
 			}
@@ -934,23 +963,24 @@ func TestVerif(t *testing.T) {
 			srp.History = sh
 			srp.Note = "the harness appends the closing sequence next x (submits+1), restart, next"
 			what := cr.what
-			if x := runCase(pool, rp.Max, sh); x.sig == sig {
+			if x := runCase(pool, rp.Max, sh, rp.Legacy...); x.sig == sig {
 				what = x.what
 			}
-			res.Violations = append(res.Violations, vgen.Violation{Signature: sig, What: what, Case: ji, Replay: srp})
+			vc := ji
+			if len(rp.Legacy) > 0 {
+				vc = -1
+			}
+			res.Violations = append(res.Violations, vgen.Violation{Signature: sig, What: what, Case: vc, Replay: srp})
 		}
 		var outs []string
 		for _, o := range cr.outs {
 			outs = append(outs, o.coq())
 		}
-		ks := poolKeys(pool)
-		var defs, tbl []string
-		for i, k := range ks {
-			defs = append(defs, fmt.Sprintf("Definition b%d := SB %s %s.", i+1, vgen.N(k), vgen.N(uint64(i+1))))
-			tbl = append(tbl, fmt.Sprintf("(%s, %s)", vgen.N(uint64(i+1)), vgen.N(k)))
+		if len(rp.Legacy) > 0 {
+			continue // the model starts from an empty store: cases on a pre-repair store are oracle-only
 		}
-		mod := fmt.Sprintf("Module C%d.\n%s\nDefinition c : qcase := {| qc_max := %s; qc_hist := %s;\n qc_outs := %s;\n qc_image := %s;\n qc_log := %s;\n qc_tbl := %s |}.\nEnd C%d.",
-			ji, strings.Join(defs, "\n"), vgen.N(uint64(rp.Max)), hc, vgen.List(outs), vgen.List(cr.image), vgen.List(cr.log), vgen.List(tbl), ji)
+		mod := fmt.Sprintf("Module C%d.\nDefinition c : qcase := {| qc_max := %s; qc_hist := %s;\n qc_outs := %s;\n qc_image := %s;\n qc_log := %s |}.\nEnd C%d.",
+			ji, vgen.N(uint64(rp.Max)), hc, vgen.List(outs), vgen.List(cr.image), vgen.List(cr.log), ji)
 		defsAll = append(defsAll, mod)
 		cases = append(cases, fmt.Sprintf("C%d.c", ji))
 		res.Replays[fmt.Sprint(ji)] = rp
@@ -960,7 +990,7 @@ func TestVerif(t *testing.T) {
 		ji++
 	}
 	res.Distinct = len(distinct)
-	res.Rule = "sequential cases: pool of 2-5 batches (incl. one-empty-transaction, [ab] vs [a,b] vs [b,a]) submitted as fresh copies so equal contents recur; bound from {0,1,2,3,5,8,1000 (NewSequencer)}; histories of 1..maxLen items over submit (8% foreign chain id, 14% nil/empty), next, restart (0-24% per case), crash inside submit/next with 0..2 writes surviving; every history is closed by next x (submits+1), restart, next; every 10th case = 2-5 concurrent submitters + one concurrent consumer (oracle only); non-trivial = at least 3 items and one accepted batch; distinct = distinct (bound, keys, history) terms"
+	res.Rule = "sequential cases: pool of 2-5 batches (incl. one-empty-transaction, [ab] vs [a,b] vs [b,a]) submitted as fresh copies so equal contents recur; bound from {0,1,2,3,5,8,1000 (NewSequencer)}; histories of 1..maxLen items over submit (8% foreign chain id, 14% nil/empty), next, restart (0-24% per case), crash inside submit/next with 0..2 writes surviving; every history is closed by next x (submits+1), restart, next; every 10th case = 2-5 concurrent submitters + one concurrent consumer (oracle only); every 10th case runs on a store pre-seeded with 1-2 records under the pre-repair bare-hash keys (oracle only: they must be handed out first, exactly once, and be deleted); non-trivial = at least 3 items and one accepted batch; distinct = distinct (bound, keys, history) terms"
 	res.Cases = len(cases)
 	header := "From Coq Require Import NArith List Bool.\nFrom Verif Require Import Model.Queue Check.QueueCheck."
 	path := filepath.Join(e.Out, "cases_C10.v")
@@ -973,8 +1003,7 @@ func TestVerif(t *testing.T) {
 	}
 }
 
-// like vgen.WriteCases, without opening string_scope (the model has no strings), plus the count of
-// cases inside the guard of C10_fifo_partial (printed for the evidence; not parsed by bin/check)
+// like vgen.WriteCases, without opening string_scope (the model has no strings)
 func writeCases(path, header string, defs, cases []string) error {
 	var sb strings.Builder
 	sb.WriteString(header)
@@ -1001,6 +1030,5 @@ func writeCases(path, header string, defs, cases []string) error {
 	sb.WriteString("Definition cases : list qcase := " + all + ".\n")
 	sb.WriteString("Definition M := Eval vm_compute in mismatches cases.\nPrint M.\n")
 	sb.WriteString("Lemma cases_agree : M = [].\nProof. reflexivity. Qed.\n")
-	sb.WriteString("Definition InGuard := Eval vm_compute in count_in_guard cases.\nPrint InGuard.\n")
 	return os.WriteFile(path, []byte(sb.String()), 0o644)
 }
